@@ -135,7 +135,7 @@ RE_FAIL = re.compile(r'^<<"FAIL", (\d+), (-?\d+), "([^"]*)", \{([^}]*)\}(?:, (.*
 RE_DONE = re.compile(r'^<<"DONE", (\d+), (\d+)>>$')
 
 
-def validate(work, trace_spec, trace_files, nproc, timeout):
+def validate(work, trace_spec, trace_files, nproc, timeout, depth=0):
     """Validate recorded events with the TLC trace spec, sharded over nproc single-worker TLC processes.
     Returns list of (event_dict, set_of_failed_clauses) and the number of events examined."""
     events = []
@@ -215,8 +215,43 @@ def validate(work, trace_spec, trace_files, nproc, timeout):
             if m:
                 done = (int(m.group(1)), int(m.group(2)))
         if done is None or done[0] != done[1] or done[1] != len(sh):
-            sys.stdout.write(txt[-3000:])
-            raise ToolError("TLC trace validation (%s) did not consume the whole trace %s" % (trace_spec, outp))
+            # TLC stopped in the middle of the shard: an evaluation error of the trace spec on one event (an observation the
+            # specification cannot even interpret).  That event is reported as rejected (clause UNEXPLAINABLE) and the rest of
+            # the shard is validated separately, so that nothing behind it goes unexamined.
+            m = None
+            for m in RE_STATES.finditer(txt):
+                pass
+            consumed = int(m.group(1)) if m else 0          # states generated = events consumed + the initial state
+            if "Error:" not in txt or consumed < 1 or consumed > len(sh) or depth >= 25:
+                sys.stdout.write(txt[-3000:])
+                raise ToolError("TLC trace validation (%s) did not consume the whole trace %s" % (trace_spec, outp))
+            bad = consumed                                   # 1-based index of the event being evaluated when TLC stopped
+            ev = json.loads(sh[bad - 1])
+            err = ""
+            em = re.search(r"Error: (.*)", txt)
+            if em:
+                err = em.group(1)[:200]
+            if stateful and ev.get("op") in STATEFUL_OPS:
+                b = bad - 1
+                while b > 0 and '"op":"begin"' not in sh[b]:
+                    b -= 1
+                ev["_history"] = [json.loads(x) for x in sh[b:bad - 1]]
+            failures.append((ev, {"UNEXPLAINABLE"}, "trace spec could not evaluate this event: " + err))
+            rest = sh[bad:]
+            if stateful:
+                # the abstract registers are lost: resume at the next history
+                k = 0
+                while k < len(rest) and '"op":"begin"' not in rest[k]:
+                    k += 1
+                rest = rest[k:]
+            if rest:
+                rp = os.path.join(d, "rest.ndjson")
+                with open(rp, "w") as rf:
+                    rf.write("\n".join(rest) + "\n")
+                sub = os.path.join(d, "rest")
+                os.makedirs(sub, exist_ok=True)
+                fl2, _, _ = validate(sub, trace_spec, [rp], 1, max(60, t_end - time.time()), depth + 1)
+                failures.extend(fl2)
         shutil.rmtree(os.path.join(d, "states"), ignore_errors=True)
     return failures, n, len(procs)
 
